@@ -15,7 +15,7 @@ META = dict(
                'lazy_dataset.core.CatchExceptionDataset.__iter__'],
     stubs=_e2.STUBS + ['E1: lazy_parallel_map/single_thread_prefetch -> serial contract'],
     assumptions=_e2.ASSUMPTIONS + ['one failing position per run in E2 (source position or task index); the failure is an Exception, a BaseException-only, or queue.Empty raised by the user code itself; E1: arbitrary subset of failing positions'],
-    bounds=dict(quick='E2: n<=2, buffer<=2, workers<=2, every failure position 0..n, both kinds; E1: n<=3, failure plan per position in {ok, caught, subclass of caught, foreign}',
+    bounds=dict(quick='E2: n<=2, buffer<=2, workers<=2 (plus the thread pool at exactly n=3, buffer=2, workers=2: the smallest instance where a full buffer meets out-of-order completion), every failure position 0..n, both kinds; E1: n<=3, failure plan per position in {ok, caught, subclass of caught, foreign}',
                 thorough='E2: single thread n<=3 and n<=4, buffer<=3; pools n<=3 buffer<=2 workers<=2; thread pool n<=3 buffer<=3 workers<=3; E1: n<=4'),
     outside=['several simultaneous failures inside running pool tasks (E2 has one failing task per run)', 'bounds above the stated ones'],
 )
